@@ -359,8 +359,12 @@ impl SubscriptionObserver {
     }
 
     /// Notifies of new messages being available.
+    ///
+    /// Every waiter is woken: a single wake-up can be handed to a waiter that cannot
+    /// act on it (a streaming pull whose client has stopped reading its responses is
+    /// not polled by the transport), which would leave the others waiting.
     pub fn notify_new_messages_available(&self) {
-        self.notify_messages_available.notify_one();
+        self.notify_messages_available.notify_waiters();
     }
 
     /// Notifies that the subscription was deleted.
